@@ -53,8 +53,9 @@ def tlc_jobs(ctx, quick):
         else:
             for g in GROUPS:
                 exp('d1-%s-%s' % (sp, g), sp, 1, g)
-            exp('d2-' + sp, sp, 2, 'core', deep='core', xs='quick')
-            exp('d2b-' + sp, sp, 2, 'core2', deep='core2', xs='quick')
+            if sp in ('rn2', 'discr2', 'power1'):
+                exp('d2-' + sp, sp, 2, 'core', deep='core', xs='tiny')
+                exp('d2b-' + sp, sp, 2, 'core2', deep='core2', xs='tiny')
     if quick:
         exp('d2-rn2', 'rn2', 2, 'one', deep='one', xs='tiny')
         exp('d2-discr2', 'discr2', 2, 'two', deep='two', xs='tiny')
@@ -206,7 +207,7 @@ def replay_program(arg):
     rec, seed, quick = arg
     sp, f = rec['sp'], rec['f']
     res = _new_res()
-    for variant in ([0] if quick else [0, 1]):
+    for variant in ([0] if (quick or rec['k'] > 1) else [0, 1]):
         try:
             B = GB(sp, f, variant)
         except (NotImplementedError, fu.Unbuildable):
@@ -418,6 +419,7 @@ def run(ctx):
             seen.add(k)
             progs.append(r)
     ctx.extra['programs_exported'] = len(progs)
+    ctx.extra['programs_by_outermost_rule'] = fu.by_rule(progs)       # every action of the machine is exercised
     drnd = random.Random(ctx.seed * 7919 + 13)
     dprogs = driver_programs(quick, drnd)
     with mp.Pool(min(14, os.cpu_count() or 4)) as pool:
